@@ -354,6 +354,8 @@ def validate(module, trace_path, cfg=None, timeout=1800, heap="12g", env=None, d
     if not idx:
         raise ToolFailure("empty trace " + trace_path)
     r = tlc(module, cfg, workers=1, env=e, timeout=timeout, heap=heap, deque=deque)
+    m = re.search(r'<<\s*"SKIPPED",\s*(\d+)\s*>>', r.out)
+    r.skipped = int(m.group(1)) if m else 0
     if r.ok:
         return [], r
     m = re.search(r'<<\s*"REJECTED",\s*\{([^}]*)\}\s*>>', r.out)
@@ -484,7 +486,7 @@ class Pipeline:
         self.dir = workdir(prop)
         self.candidates = []      # (scenario, sid, kind, detail)
         self.stats = {"scenarios": 0, "executions": 0, "events": 0, "tlc_states": 0, "tlc_generated": 0,
-                      "replay_s": 0.0, "validate_s": 0.0, "crashes": 0, "rejected": 0}
+                      "replay_s": 0.0, "validate_s": 0.0, "crashes": 0, "rejected": 0, "oracle_silent": 0}
         self.samples = []
         self.runs = 0
 
@@ -510,6 +512,7 @@ class Pipeline:
             self.stats["validate_s"] += r.wall
             self.stats["tlc_states"] += r.distinct
             self.stats["tlc_generated"] += r.generated
+            self.stats["oracle_silent"] += r.skipped
             seen = set()
             for rec in rejected:
                 self.stats["rejected"] += 1
